@@ -92,6 +92,12 @@ RotP1(P, o) == <<2 * o[1] - (P[2] - 2 * o[2]), 2 * o[2] + (P[1] - 2 * o[1])>>
 Rot2(P, o, q) == IF q = 0 THEN P ELSE IF q = 1 THEN RotP1(P, o)
                  ELSE IF q = 2 THEN RotP1(RotP1(P, o), o) ELSE RotP1(RotP1(RotP1(P, o), o), o)
 Scale2(P, f, o) == <<2 * o[1] + f[1] * (P[1] - 2 * o[1]), 2 * o[2] + f[2] * (P[2] - 2 * o[2])>>
+\* the cells whose closed square holds the (doubled) point P: one cell for a centre, two or four on grid lines
+AxisCells(X) == IF X % 2 = 1 THEN {(X - 1) \div 2} ELSE {X \div 2 - 1, X \div 2}
+Touch(P) == AxisCells(P[1]) \X AxisCells(P[2])
+\* all probe points strictly inside / each one strictly inside or strictly outside (else: on an outline, not claimed)
+ProbesIn(pr, ins) == \A k \in 1 .. Len(pr) : Touch(pr[k]) \subseteq ins
+ProbesClear(pr, ins) == \A k \in 1 .. Len(pr) : Touch(pr[k]) \subseteq ins \/ Touch(pr[k]) \cap ins = {}
 CellLess(a, b) == a[1] < b[1] \/ (a[1] = b[1] /\ a[2] < b[2])
 MinCell(S) == CHOOSE c \in S : \A d \in S : c = d \/ CellLess(c, d)
 MaxCell(S) == CHOOSE c \in S : \A d \in S : c = d \/ CellLess(d, c)
@@ -234,18 +240,21 @@ DoPoke(a, sc) ==
 Distinct(hs) == \A j, k \in 1 .. Len(hs) : j # k => hs[j] # hs[k]
 \* Device(film, holes, probe_points): the probe points (two of them, or none) are validated against the device at
 \* construction: ValueError unless every one lies inside the film and outside every hole
-ProbeChoice(pm, ins) == CASE pm = "none" -> <<>>
-                          [] pm = "inside" -> <<Centre2(MinCell(ins)), Centre2(MaxCell(ins))>>
-                          [] pm = "outside" -> <<Centre2(MinCell(Cells \ ins)), Centre2(MaxCell(Cells))>>
+\* "outside": one probe in a hole of the film if there is such a cell, else anywhere outside
+ProbeChoice(pm, ins, inhole) ==
+  CASE pm = "none" -> <<>>
+    [] pm = "inside" -> <<Centre2(MinCell(ins)), Centre2(MaxCell(ins))>>
+    [] pm = "outside" -> <<Centre2(IF inhole # {} THEN MinCell(inhole) ELSE MinCell(Cells \ ins)),
+                           Centre2(IF ins # {} THEN MaxCell(ins) ELSE MaxCell(Cells))>>
 DoMkDev(f, hs, pm) ==
   /\ IsObj(f) /\ \A k \in 1 .. Len(hs) : IsObj(hs[k]) /\ hs[k] # f
   /\ Distinct(hs)
   /\ LET dv0 == [film |-> f, holes |-> hs, inside |-> {}, probes |-> <<>>]
          ins == InsideSpec(objs, dv0)
      IN  /\ (pm = "inside" => Cardinality(ins) >= 2) /\ (pm = "outside" => ins # Cells)
-         /\ LET pr == ProbeChoice(pm, ins)
+         /\ LET pr == ProbeChoice(pm, ins, objs[f].cells \cap HoleCells(objs, dv0))
                 o == [NoOp EXCEPT !.op = "mkdev", !.a = f, !.hs = hs, !.pm = pm, !.probes = pr]
-                ok == \A k \in 1 .. Len(pr) : \E c \in InsideMech(objs, dv0) : Centre2(c) = pr[k]
+                ok == ProbesIn(pr, InsideMech(objs, dv0))
             IN  IF ok THEN Commit([o EXCEPT !.res = Len(devs) + 1], objs, Append(devs, [dv0 EXCEPT !.probes = pr]), nb, TRUE)
                 ELSE Commit([o EXCEPT !.out = "ValueError"], objs, devs, nb, TRUE)
 
@@ -257,10 +266,16 @@ CopiedDev(os, dv) == [film |-> Len(os) + 1, holes |-> [k \in 1 .. Len(dv.holes) 
                       probes |-> dv.probes]
 DevMembers(dv) == <<dv.film>> \o dv.holes
 
+\* every new Device validates its probe points against its film and holes AS THEY ARE NOW (they are referred to by
+\* reference and may have been moved in place since): Device.copy() - and with it every non-in-place transform -
+\* raises ValueError when a probe point no longer lies inside
 DoDevCopy(d) ==
   /\ IsDev(d)
-  /\ Commit([NoOp EXCEPT !.op = "devcopy", !.a = d, !.res = Len(devs) + 1],
-            CopiedObjs(objs, devs[d], nb), Append(devs, CopiedDev(objs, devs[d])), nb + 1 + Len(devs[d].holes), TRUE)
+  /\ ProbesClear(devs[d].probes, InsideMech(objs, devs[d]))
+  /\ IF ProbesIn(devs[d].probes, InsideMech(objs, devs[d]))
+     THEN Commit([NoOp EXCEPT !.op = "devcopy", !.a = d, !.res = Len(devs) + 1],
+                 CopiedObjs(objs, devs[d], nb), Append(devs, CopiedDev(objs, devs[d])), nb + 1 + Len(devs[d].holes), TRUE)
+     ELSE Commit([NoOp EXCEPT !.op = "devcopy", !.a = d, !.out = "ValueError"], objs, devs, nb, TRUE)
 
 \* device transforms: (a copy of) every polygon of the device is transformed in place
 MapMembers(os, ms, Img(_), reflect, nbuf) ==
@@ -279,8 +294,11 @@ DevTransform(o, d, inplace, Img(_), ImgP(_), reflect) ==
       nb1 == nb + 1 + Len(dv.holes)
       ms  == DevMembers(dv1)
   IN  /\ \A k \in 1 .. Len(ms) : InGrid(Img(os1[ms[k]].cells))
-      /\ Commit([o EXCEPT !.a = d, !.inplace = inplace, !.res = IF inplace THEN d ELSE Len(devs) + 1],
-                MapMembers(os1, ms, Img, reflect, nb1), ds1, nb1 + Len(ms) + 1, TRUE)
+      /\ (~inplace => ProbesClear(dv.probes, InsideMech(objs, dv)))
+      /\ IF inplace \/ ProbesIn(dv.probes, InsideMech(objs, dv))
+         THEN Commit([o EXCEPT !.a = d, !.inplace = inplace, !.res = IF inplace THEN d ELSE Len(devs) + 1],
+                     MapMembers(os1, ms, Img, reflect, nb1), ds1, nb1 + Len(ms) + 1, TRUE)
+         ELSE Commit([o EXCEPT !.a = d, !.inplace = inplace, !.out = "ValueError"], objs, devs, nb, TRUE)
 
 DoDevTranslate(d, sc, inplace) ==
   /\ IsDev(d)
@@ -311,8 +329,10 @@ CanOp == nops < MaxOps /\ objs # <<>> /\ (nops > 0 \/ Len(objs) >= MinBoxes)
 DevOpNames == {"mkdev", "devcopy", "devtranslate", "devrotate", "devscale"}
 MemberSet(dv) == {dv.film} \cup {dv.holes[k] : k \in 1 .. Len(dv.holes)}
 Free == ~Chained \/ nops = 0 \/ last.o.out # "ok"
-Foc(S) == Free \/ (IF last.o.op \in DevOpNames THEN MemberSet(devs[last.o.res]) \cap S # {} ELSE last.o.res \in S)
-FocD(d) == Free \/ (IF last.o.op \in DevOpNames THEN d = last.o.res ELSE last.o.res \in MemberSet(devs[d]))
+Foc(S) == IF Free THEN TRUE
+          ELSE IF last.o.op \in DevOpNames THEN MemberSet(devs[last.o.res]) \cap S # {} ELSE last.o.res \in S
+FocD(d) == IF Free THEN TRUE
+           ELSE IF last.o.op \in DevOpNames THEN d = last.o.res ELSE last.o.res \in MemberSet(devs[d])
 ASetOp == CanOp /\ "setop" \in PolyOps /\ \E kind \in {"union", "intersection", "difference"}, a, b \in Ids : Foc({a, b}) /\ DoSetOp(kind, a, b)
 ARotate == CanOp /\ "rotate" \in PolyOps /\ \E a \in Ids, q \in Quarters, oc \in Origins, ip \in BOOLEAN : Foc({a}) /\ DoRotate(a, q, oc, ip)
 ATranslate == CanOp /\ "translate" \in PolyOps /\ \E a \in Ids, sc \in Shifts, ip \in BOOLEAN : Foc({a}) /\ DoTranslate(a, sc, ip)
@@ -348,7 +368,7 @@ ImageP(P) == CASE L.op = "devrotate" -> Rot2(P, L.org, L.q)
                [] L.op = "devtranslate" -> Shift2(P, L.par)
                [] L.op = "devscale" -> Scale2(P, L.par, L.org)
 \* for a device transform: pairs <<object before, object after>>
-DevPairs == IF L.op \in DevTransforms
+DevPairs == IF L.op \in DevTransforms /\ L.out = "ok"
             THEN LET old == DevMembers(last.pdevs[L.a])
                      new == DevMembers(devs[L.res])
                  IN  {<<old[k], new[k]>> : k \in 1 .. Len(old)}
@@ -398,14 +418,14 @@ InplaceReturnsSelf ==
   /\ (L.op \in Transforms /\ L.inplace) => L.res = L.a /\ Len(objs) = NPre
   /\ (L.op \in Transforms /\ ~L.inplace) => L.res = NPre + 1 /\ Len(objs) = NPre + 1
   /\ (L.op = "devtranslate" /\ L.inplace) => L.res = L.a /\ Len(objs) = NPre /\ Len(devs) = Len(last.pdevs)
-  /\ (L.op \in DevTransforms /\ ~L.inplace) => L.res = Len(last.pdevs) + 1 /\ Len(devs) = Len(last.pdevs) + 1
+  /\ (L.op \in DevTransforms /\ ~L.inplace /\ Ok) => L.res = Len(last.pdevs) + 1 /\ Len(devs) = Len(last.pdevs) + 1
 
 \* copies never alias: no two objects share a buffer, a copy equals its original, and mutating one
 \* object (in place or through its vertex array) changes no other object
 CopiesDoNotAlias ==
   /\ \A i, j \in 1 .. Len(objs) : i # j => objs[i].buf # objs[j].buf
   /\ L.op = "copy" => L.res = NPre + 1 /\ Len(objs) = NPre + 1 /\ Obs(objs[L.res]) = Obs(Pre[L.a])
-  /\ L.op = "devcopy" => /\ Len(devs) = Len(last.pdevs) + 1
+  /\ (L.op = "devcopy" /\ Ok) => /\ Len(devs) = Len(last.pdevs) + 1
                          /\ LET old == DevMembers(last.pdevs[L.a])
                                 new == DevMembers(devs[L.res]) IN
                               /\ Len(old) = Len(new) /\ devs[L.res].probes = last.pdevs[L.a].probes
@@ -418,14 +438,16 @@ CopiesDoNotAlias ==
 DeviceIsFilmMinusHoles == \A d \in 1 .. Len(devs) : devs[d].inside = InsideSpec(objs, devs[d])
 
 \* transforms, copies and device operations never fail on valid shapes
-OnlySetOpsFail == ~Ok => (L.op = "setop" \/ (L.op = "mkdev" /\ L.pm = "outside"))
-\* probe points are accepted exactly when all of them lie inside the film and outside every hole
+Constructs == L.op \in {"mkdev", "devcopy"} \/ (L.op \in DevTransforms /\ ~L.inplace)
+OnlySetOpsFail == ~Ok => (L.op = "setop" \/ Constructs)
+\* whenever a Device is constructed (also by copy() and by the non-in-place transforms) its probe points are accepted
+\* exactly when all of them lie inside the film and outside every hole, as these are at that moment
 ProbesValidatedAtConstruction ==
-  L.op = "mkdev" =>
-    LET ins == InsideSpec(Pre, [film |-> L.a, holes |-> L.hs])
-        good == \A k \in 1 .. Len(L.probes) : \E c \in ins : Centre2(c) = L.probes[k]
-    IN  IF good THEN Ok /\ Len(devs) = Len(last.pdevs) + 1 /\ devs[L.res].probes = L.probes
-        ELSE L.out = "ValueError" /\ Len(devs) = Len(last.pdevs)
+  Constructs =>
+    LET pr == IF L.op = "mkdev" THEN L.probes ELSE last.pdevs[L.a].probes
+        ins == IF L.op = "mkdev" THEN InsideSpec(Pre, [film |-> L.a, holes |-> L.hs]) ELSE InsideSpec(Pre, last.pdevs[L.a])
+    IN  IF ProbesIn(pr, ins) THEN Ok /\ Len(devs) = Len(last.pdevs) + 1 /\ (L.op = "mkdev" => devs[L.res].probes = L.probes)
+        ELSE L.out = "ValueError" /\ Len(devs) = Len(last.pdevs) /\ Len(objs) = NPre
 
 Clauses == /\ TypeOK /\ OnlySetOpsFail /\ ProbesValidatedAtConstruction /\ AreaMatchesMembership /\ StoredClosedAndCCW /\ AreaLaw /\ PointsMapWithShapes
            /\ SetOpsArePointwise /\ NonInplaceNeverMutates /\ InplaceReturnsSelf /\ CopiesDoNotAlias
@@ -444,6 +466,7 @@ RelHolds(e) ==
                            /\ \A k \in 1 .. Len(e.r) : e.r[k] = Pointwise(e.kind, e.a[k], e.b[k])
     [] e.rel = "same"   -> AllSame(e.x, e.y)                                  \* the original did not move
     [] e.rel = "moved"  -> ~AllSame(e.x, e.y)                                 \* the mutated object did (non-vacuity)
+    [] e.rel = "zero"   -> \A k \in 1 .. Len(e.x) : Abs(e.x[k]) <= e.tol            \* quantised deviation from the mapped points
     [] e.rel = "ident"  -> e.same = e.expect                                  \* result is self iff inplace
     [] e.rel = "dev"    -> /\ Len(e.film) = Len(e.dev)                        \* device = film minus holes
                            /\ \A k \in 1 .. Len(e.dev) :
